@@ -32,6 +32,7 @@ HOOK_COMMITS = [
     "c4459971472dd072f36422595d14d0accf522f97",
     "98eed37a9ece2b904c22e16ba539aeee0c9108c3",
     "e083470ed97a47094fe9a3c95d90269a387547d6",
+    "c3177feaf6928496a10a4eb0a6033f17052334e7",
 ]
 
 LEVEL_NOTE_COMMON = (
@@ -68,6 +69,10 @@ def c02_relevant(kind, rec, case):
         return True  # "satisfiable" verdict of satisfy (the solution itself is also C01's concern)
     if kind in ("nonterm", "panic", "hang"):
         return scen_of(case).startswith("satisfy") or scen_of(case).startswith("iterate")
+    if scen_of(case).startswith("tap"):
+        # explanation tap: calls of the semantic minimiser (exact correspondence with the model) and
+        # learned nogoods (implied by the model); the explanations themselves are C17's
+        return kind in ("semmin", "nogood", "panic", "hang", "nonterm")
     if kind == "solset":
         # the end of an enumeration is an Unsatisfiable verdict on the model plus blocking clauses:
         # a missing solution means it came too early (foreign / repeated solutions are C01 / C03)
@@ -109,9 +114,11 @@ PROPS = {
         "streams": [
             {"name": "answers", "mode": "answers", "quick": 500, "thorough": 15000,
              "args": ["--mix", "satisfy=4,iterate=3,optimise=1,assume=1"]},
+            {"name": "minimiser", "mode": "tap", "quick": 400, "thorough": 8000, "args": []},
         ],
+        "lean_modules": ["Pumpkin.Model.SemMin"],
         "relevant": c02_relevant,
-        "level_text": "Proof: the oracle is exact (mem_solutions, solutions_eq_nil_iff), so an accepted Unsatisfiable verdict or posting error means the (prefix) model has no satisfying assignment, and a prefix-unsat model is unsat. Tie to code: every verdict of satisfy and every Err from post/add_clause on generated models is judged against the oracle; non-termination is observed as a poll cap / wall-clock cap.",
+        "level_text": "semantic_minimiser_preserves_meaning: Model/SemMin.lean mirrors semantic_minimiser.rs (apply_predicates, hole propagation loops, redundant-hole removal, consistency, description relative to the original domain, equality merging) and is proved meaning-preserving for every nogood, every original domain and every assignment; tied exactly: the hook records input and output of every call of the real minimiser during search and the model must return the same set of predicates (or 'trivially false'). Proof: the oracle is exact (mem_solutions, solutions_eq_nil_iff), so an accepted Unsatisfiable verdict or posting error means the (prefix) model has no satisfying assignment, and a prefix-unsat model is unsat. Tie to code: every verdict of satisfy and every Err from post/add_clause on generated models is judged against the oracle; non-termination is observed as a poll cap / wall-clock cap.",
         "level_note": LEVEL_NOTE_COMMON + "Completeness (termination) of real CDCL with restarts/deletion is not a theorem; observed only.",
         "assumptions": ["termination is observed as: no solve exceeds 2,000,000 polls of the termination condition and no case exceeds the stream timeout"],
     },
@@ -205,6 +212,8 @@ PROPS = {
         "streams": [
             {"name": "reified", "mode": "answers", "quick": 500, "thorough": 12000,
              "args": ["--mix", "iterate=3,satisfy=1,assume=1", "--kinds", "impl,impl,reif,reif,neg,linle,clause", "--maxproduct", "4000"]},
+            {"name": "reified-stateful", "mode": "answers", "quick": 1000, "thorough": 20000,
+             "args": ["--mix", "iterate=4,satisfy=1", "--kinds", "implstate,implstate,implstate,linle,clause", "--maxproduct", "4000"]},
         ],
         "relevant": panic_or({"solset", "subset", "sol", "asol", "verdict", "averdict", "partial", "bad"}, ["iterate", "satisfy", "assume"]),
         "level_text": "Proof: models of how the library builds reified constraints, proved equal to the documented meaning: reify_decomposition (reify = implied_by r /\ negation.implied_by not-r), negLinLe_sat (Inequality::negation is the complement), equals_decomposition, neg_eq_ne, neg_clause_conj, clause_implied_by, implied_sem / reif_sem (C01). Tie to code: every constraint kind under implied_by, every negatable kind under reify and negation() (also doubly negated), reification literal shared between constraints and fixed by other constraints either way; solution sets compared with the oracle.",
